@@ -737,6 +737,59 @@ mut("C11", "run-proc-assignment-fast-path", "R11-8|execute::run_proc|expanded-tw
     }
     match CommandLine::from_line(line, sh) {"""))
 
+ref("func-args-extend", ["C15"], "the argument vector of a function call built with extend(map) instead of a push loop",
+    (C, """        for token in &command.tokens {
+            args.push(token.1.to_string());
+        }
+""", """        args.extend(command.tokens.iter().map(|token| token.1.to_string()));
+"""))
+mut("C15", "func-args-skip-empty", "R15-2|core::try_run_func|all-words", "empty words of a function call are not passed on",
+    (C, """        for token in &command.tokens {
+            args.push(token.1.to_string());
+        }
+""", """        for token in &command.tokens {
+            if token.1.is_empty() {
+                continue;
+            }
+            args.push(token.1.to_string());
+        }
+"""))
+
+ref("alias-list-collect", ["C17"], "get_alias_list written as iter().map().collect()",
+    (S, """        let mut result = Vec::new();
+        for (name, value) in &self.aliases {
+            result.push((name.clone(), value.clone()));
+        }
+        result
+""", """        self.aliases.iter().map(|(name, value)| (name.clone(), value.clone())).collect()
+"""))
+mut("C18", "space-test-on-expanded-line", "R18-2|main|typed-line", "the leading-space test reads the line after !! expansion",
+    (M, "                if !sh.cmd.starts_with(' ') && line != sh.previous_cmd {",
+     "                if !line.starts_with(' ') && line != sh.previous_cmd {"))
+mut("C14", "no-soi-prefix-if", "R14-6|grammar|EXP|leading-blank|EXP_IF", "EXP_IF loses its (SOI)? prefix",
+    ("src/parsers/grammar.pest", """EXP_IF = {
+    (SOI)? ~
+    IF_IF_BR ~""", """EXP_IF = {
+    IF_IF_BR ~"""))
+ref("grammar-soi-at-top", ["C14"], "the start-of-input marker moved to the top rule (SOI ~ ...)* instead of the three block rules",
+    ("src/parsers/grammar.pest", """EXP_IF = {
+    (SOI)? ~
+    IF_IF_BR ~""", """EXP_IF = {
+    IF_IF_BR ~"""),
+    ("src/parsers/grammar.pest", """EXP_FOR = {
+    (SOI)? ~
+    FOR_HEAD ~""", """EXP_FOR = {
+    FOR_HEAD ~"""),
+    ("src/parsers/grammar.pest", """EXP_WHILE = {
+    (SOI)? ~
+    WHILE_HEAD ~""", """EXP_WHILE = {
+    WHILE_HEAD ~"""),
+    ("src/parsers/grammar.pest", """EXP = { (EXP_IF | EXP_FOR | EXP_WHILE | CMD)* ~ EOI }""",
+     """EXP = { SOI ~ (EXP_IF | EXP_FOR | EXP_WHILE | CMD)* ~ EOI }"""))
+mut("C16", "dq-backslash-unescaped", "R16-3|parsers::parser_line::parse_line|dq-unescaped-not-reescaped",
+    "inside double quotes the tokenizer turns two backslashes into one; the renderer does not re-escape it",
+    (P, """        if has_backslash && sep == "\\"" && c != '\\"' {""", """        if has_backslash && sep == "\\"" && c != '\\"' && c != '\\\\' {"""))
+
 # ------------------------------------------------------------------ C13
 mut("C13", "env-resets-tag", "R13-2", "expand_env drops the quote tag of the token it rewrites",
     (S, '''    for (i, text) in buff.iter().rev() {
